@@ -101,10 +101,17 @@ def impl_run(case):
         dtw_cc.wps_expand_slice(comp, full, len(s1), len(s2), 0, len(s1) + 1, 0, len(s2) + 1, st)
         return {"m": full}
     from dtaidistance.subsequence.localconcurrences import LocalConcurrences
-    lc = LocalConcurrences(s1, None if case["self"] else s2, gamma=case["gamma"], tau=case["tau"], delta=case["delta"],
-                           delta_factor=case["delta_factor"], only_triu=case["only_triu"], penalty=case["penalty"],
-                           window=case["window"], use_c=(kind == "lc.c"))
-    lc.align()
+    if len(case["s1"]) % 2 == 0:
+        # the documented entry point: local_concurrences(...) = object + align()
+        from dtaidistance.subsequence.localconcurrences import local_concurrences
+        lc = local_concurrences(s1, None if case["self"] else s2, gamma=case["gamma"], tau=case["tau"],
+                                delta=case["delta"], delta_factor=case["delta_factor"], only_triu=case["only_triu"],
+                                penalty=case["penalty"], window=case["window"], use_c=(kind == "lc.c"))
+    else:
+        lc = LocalConcurrences(s1, None if case["self"] else s2, gamma=case["gamma"], tau=case["tau"], delta=case["delta"],
+                               delta_factor=case["delta_factor"], only_triu=case["only_triu"], penalty=case["penalty"],
+                               window=case["window"], use_c=(kind == "lc.c"))
+        lc.align()
     use_c = kind == "lc.c"
     # with the C engine the matrix lives in the compact layout: read it through wp_slice
     base = np.array(lc.wp_slice() if use_c else lc.wp, dtype=np.double)
